@@ -571,10 +571,10 @@ pub fn obs_forward(store: &AnnotationStore) -> Sx {
 /// per-item answers, chronological and duplicate-free.  Handles in the order the API yields them.
 /// Layout (see coq/Run/C01.v obs_adaptors):
 ///   ( (for all live annotations / for those with an even handle:
-///        (annotations in_targets_one in_targets_max data data_as_metadata keys keys_as_metadata resources resources_as_metadata))
+///        (annotations in_targets_one in_targets_max data data_as_metadata keys keys_as_metadata resources resources_as_metadata textselections.annotations))
 ///     (per dataset: (data.annotations data.annotations_as_metadata data.keys keys.annotations keys.annotations_as_metadata
 ///                    (per data item: (resources resources_as_metadata datasets)) (per key: (resources resources_as_metadata datasets))))
-///     (resources.annotations resources.annotations_as_metadata) )
+///     (resources.annotations resources.annotations_as_metadata resources.textselections.annotations) )
 pub fn obs_adaptors(store: &AnnotationStore) -> Sx {
     guard(|| {
         let hs = |v: Vec<usize>| nats(v);
@@ -592,6 +592,8 @@ pub fn obs_adaptors(store: &AnnotationStore) -> Sx {
                 pairs(sel().keys_as_metadata().map(|k| (k.set().handle().as_usize(), k.handle().as_usize())).collect()),
                 hs(sel().resources().map(|r| r.handle().as_usize()).collect()),
                 hs(sel().resources_as_metadata().map(|r| r.handle().as_usize()).collect()),
+                // AnnotationIterator::textselections, then TextSelectionIterator::annotations
+                hs(sel().textselections().annotations().map(|x| x.handle().as_usize()).collect()),
             ]));
         }
         let mut sets = Vec::new();
@@ -636,6 +638,8 @@ pub fn obs_adaptors(store: &AnnotationStore) -> Sx {
         let res = l(vec![
             hs(store.resources().annotations().map(|x| x.handle().as_usize()).collect()),
             hs(store.resources().annotations_as_metadata().map(|x| x.handle().as_usize()).collect()),
+            // ResourcesIterator::textselections (all known selections of all resources), then their annotations
+            hs(store.resources().textselections().annotations().map(|x| x.handle().as_usize()).collect()),
         ]);
         l(vec![l(by_sel), l(sets), res])
     })
